@@ -96,6 +96,7 @@ type Exec struct {
 	lockEvents []string
 	lastNow    Value
 	decOrigin  map[**sym.Term]decInfo
+	b64Origin  map[string][]*sym.Term
 }
 
 type qres struct {
@@ -145,6 +146,19 @@ func (e *Exec) check(extra ...*sym.Term) (sym.Result, *sym.Model) {
 	}
 	if !e.cfg.Deadline.IsZero() && time.Now().After(e.cfg.Deadline) {
 		e.end("limit", "instance deadline exceeded")
+	}
+	// large queries: a handful of concrete candidate assignments may already satisfy them
+	// (a satisfying assignment is a SAT verdict however it was found; unsat always comes from the solver)
+	total := 0
+	for _, a := range as {
+		total += a.Size
+	}
+	if total > 3000 {
+		if m := e.quickSat(as); m != nil {
+			e.rep.QuickSat++
+			e.qcache[k] = qres{sym.Sat, m}
+			return sym.Sat, m
+		}
 	}
 	r, m := e.solver.CheckInc(as, nBase, true)
 	if r == sym.Sat && m != nil {
@@ -442,4 +456,60 @@ func (e *Exec) where() string {
 func shortFile(f string) string {
 	f = strings.TrimPrefix(f, "/repo/")
 	return f
+}
+
+// quickSat evaluates the assertions under a few candidate assignments (zeros, ones, pseudo-random).
+func (e *Exec) quickSat(as []*sym.Term) *sym.Model {
+	vars, apps := sym.Leaves(as)
+	if len(apps) > 0 {
+		return nil
+	}
+	seed := uint64(0x9E3779B97F4A7C15)
+	next := func() uint64 {
+		seed ^= seed << 13
+		seed ^= seed >> 7
+		seed ^= seed << 17
+		return seed
+	}
+	for trial := 0; trial < 10; trial++ {
+		m := &sym.Model{Vars: map[string]*big.Int{}, Apps: map[int]*big.Int{}}
+		for _, v := range vars {
+			var val *big.Int
+			switch trial {
+			case 0:
+				val = big.NewInt(0)
+			case 1:
+				val = new(big.Int).Sub(new(big.Int).Lsh(big.NewInt(1), uint(maxInt(v.W, 1))), big.NewInt(1))
+			default:
+				val = new(big.Int).SetUint64(next())
+				if v.W > 0 && v.W < 64 {
+					val.And(val, new(big.Int).Sub(new(big.Int).Lsh(big.NewInt(1), uint(v.W)), big.NewInt(1)))
+				}
+			}
+			if v.W == 0 {
+				val = new(big.Int).And(val, big.NewInt(1))
+			}
+			m.Vars[v.Name] = val
+		}
+		memo := map[int]*big.Int{}
+		ok := true
+		for _, a := range as {
+			r, good := e.tb.Eval(a, m, memo)
+			if !good || r.Sign() == 0 {
+				ok = false
+				break
+			}
+		}
+		if ok {
+			return m
+		}
+	}
+	return nil
+}
+
+func maxInt(a, b int) int {
+	if a > b {
+		return a
+	}
+	return b
 }
